@@ -241,7 +241,7 @@ def argmax_clause(model, rep, funcs):
         if isinstance(c, ast.Call) and (dotted(c.func) or "").endswith("AlignmentResult"):
             args = [norm_src(a) for a in c.args] + [norm_src(k.value) for k in c.keywords]
             idx = args[0] if args else ""
-            subs = [a for a in c.args[1:] if isinstance(a, ast.Subscript)]
+            subs = [a for a in list(c.args[1:]) + [k.value for k in c.keywords][max(0, 1 - len(c.args)):] if isinstance(a, ast.Subscript)]  # positional or by keyword
             if len(subs) != 3 or any(norm_src(s.slice) != idx for s in subs):
                 ok = False
                 det.append(f"result fields are not all taken at the arg-max index: {args}")
